@@ -112,7 +112,74 @@ func (c *recConn) SetWriteDeadline(t time.Time) error {
 	if r.dlErr != nil {
 		return r.dlErr
 	}
-	return c.inner.SetWriteDeadline(t)
+	err := c.inner.SetWriteDeadline(t)
+	if err != nil {
+		c.mu.Lock()
+		r.dlErr = err // e.g. the connection has been closed meanwhile
+		c.mu.Unlock()
+	}
+	return err
+}
+
+// clear forgets what has been recorded so far (connection-level scenarios: startup traffic).
+func (c *recConn) clear() {
+	c.mu.Lock()
+	c.log = nil
+	c.dlN = 0
+	c.mu.Unlock()
+}
+
+// errNum is the number the model knows an error of the connection by (EOther n).
+func errNum(err error) int64 {
+	var ce codeErr
+	switch {
+	case errors.As(err, &ce):
+		return ce.code
+	case errors.Is(err, os.ErrDeadlineExceeded):
+		return codeTimeout
+	case errors.Is(err, net.ErrClosed):
+		return codeNetClosed
+	}
+	return codeUnknown
+}
+
+// tconn is a net.Conn whose SetWriteDeadline / Write calls are recorded (whole sessions: handed out by tdialer).
+type tconn struct {
+	net.Conn
+	rc *recConn
+}
+
+func (t *tconn) Write(p []byte) (int, error)        { return t.rc.Write(p) }
+func (t *tconn) SetWriteDeadline(d time.Time) error { return t.rc.SetWriteDeadline(d) }
+func (t *tconn) SetDeadline(d time.Time) error      { return t.Conn.SetDeadline(d) }
+
+type tdialer struct {
+	inner interface {
+		DialContext(ctx context.Context, network, addr string) (net.Conn, error)
+	}
+	mu    sync.Mutex
+	conns []*tconn
+}
+
+func (d *tdialer) DialContext(ctx context.Context, network, addr string) (net.Conn, error) {
+	c, err := d.inner.DialContext(ctx, network, addr)
+	if err != nil {
+		return nil, err
+	}
+	t := &tconn{Conn: c, rc: newRecConn(c, nil)}
+	d.mu.Lock()
+	d.conns = append(d.conns, t)
+	d.mu.Unlock()
+	return t, nil
+}
+
+func (d *tdialer) last() *tconn {
+	d.mu.Lock()
+	defer d.mu.Unlock()
+	if len(d.conns) == 0 {
+		return nil
+	}
+	return d.conns[len(d.conns)-1]
 }
 
 func (c *recConn) Write(p []byte) (int, error) {
